@@ -559,7 +559,7 @@ pub fn scenarios(prop: &str, tier: &str) -> Vec<Cfg> {
                 "C10" => "C10",
                 _ => "C16",
             };
-            let d = if thorough { 10 } else { 8 };
+            let d = if thorough { 12 } else { 8 };
             let delta = if thorough { 4 } else { 3 };
             let kinds: Vec<Kind> = if p == "C16" {
                 vec![Kind::Bo(1), Kind::Bo(2), Kind::Bo(3), Kind::Tbo(1), Kind::Tbo(2), Kind::Tbo(3)]
@@ -574,7 +574,7 @@ pub fn scenarios(prop: &str, tier: &str) -> Vec<Cfg> {
                 let lens: Vec<usize> = if p == "C16" { vec![n + 1, n + 4, 1000] } else { vec![0, 1, n + 2] };
                 for len in lens {
                     let hint = if len == 1000 { HintShape::Unknown } else { HintShape::Exact };
-                    let mut c = adapter_cfg(p, k, len, hint, if p == "C16" && thorough { 11 } else { d }, delta);
+                    let mut c = adapter_cfg(p, k, len, hint, if p == "C16" && thorough { 13 } else { d }, delta);
                     if p == "C16" {
                         // completing futures is the interesting dimension here
                         c.costly = ops::FEED_UP;
@@ -591,7 +591,7 @@ pub fn scenarios(prop: &str, tier: &str) -> Vec<Cfg> {
         }
         // ------------------------------------------------------------------------------------ C11
         "C11" => {
-            let d = if thorough { 9 } else { 7 };
+            let d = if thorough { 11 } else { 7 };
             for (k, pre) in family_m() {
                 let mut c = Cfg::new("C11", k);
                 c.name = format!("{:?}[{}]", k, pre.iter().map(|p| p.render()).collect::<Vec<_>>().join(","));
@@ -692,7 +692,7 @@ pub fn scenarios(prop: &str, tier: &str) -> Vec<Cfg> {
         // ------------------------------------------------------------------------------------ C13
         "C13" => {
             let sizes: Vec<usize> = if thorough { vec![1, 2, 31, 32, 33, 61, 62, 63, 96, 130] } else { vec![1, 2, 31, 32, 33, 62, 96] };
-            let d = if thorough { 6 } else { 5 };
+            let d = if thorough { 8 } else { 5 };
             #[derive(Clone, Copy, PartialEq)]
             enum Pop {
                 Omega,
